@@ -20,6 +20,8 @@ type exec struct {
 	key        string
 	leader     int // call index
 	start, end int // logical clock; end==0 while running
+	startT     time.Time
+	endT       time.Time
 	val        int
 	err        error
 	panicked   bool
@@ -29,6 +31,7 @@ type call struct {
 	id          int
 	key         string
 	inv, ret    int
+	invT        time.Time
 	val         any
 	fresh       bool
 	err         error
@@ -44,6 +47,7 @@ func (c *closer) Close() error { return nil }
 
 type world struct {
 	r      *simrt.Run
+	t0     time.Time
 	clk    int
 	execs  []*exec
 	calls  []*call
@@ -55,7 +59,7 @@ func (w *world) tick() int { w.clk++; return w.clk }
 // runFn is the body of a supplied function: records the execution, takes some
 // virtual time / scheduling points, and produces a unique result.
 func (w *world) runFn(c *call, dur time.Duration, yields int, outcome int, gate chan struct{}) (*exec, error) {
-	e := &exec{id: len(w.execs), key: c.key, leader: c.id, start: w.tick()}
+	e := &exec{id: len(w.execs), key: c.key, leader: c.id, start: w.tick(), startT: time.Now()}
 	w.execs = append(w.execs, e)
 	c.ownRuns++
 	c.ownExec = e
@@ -76,6 +80,7 @@ func (w *world) runFn(c *call, dur time.Duration, yields int, outcome int, gate 
 		delete(w.active, c.key)
 	}
 	e.end = w.tick()
+	e.endT = time.Now()
 	e.val = 1000 + e.id
 	switch outcome {
 	case 1:
@@ -270,7 +275,7 @@ func (w *world) checkSF(c *call) {
 
 func lockedCalls(r *simrt.Run, tier string) {
 	t := r.Tape
-	w := &world{r: r, active: map[string]*exec{}}
+	w := &world{r: r, active: map[string]*exec{}, t0: time.Now()}
 	g := syncx.NewLockedCalls()
 	nTasks, nKeys, perTask := sizes(t, tier)
 	// optionally one call on key "gate" blocks until main has seen all other keys finish
@@ -300,6 +305,7 @@ func lockedCalls(r *simrt.Run, tier string) {
 	do := func(c *call, p plan, gt chan struct{}) {
 		w.calls = append(w.calls, c)
 		c.inv = w.tick()
+		c.invT = time.Now()
 		v, err := g.Do(c.key, func() (any, error) {
 			e, err := w.runFn(c, p.dur, p.yields, p.outcome, gt)
 			return e.val, err
@@ -320,6 +326,7 @@ func lockedCalls(r *simrt.Run, tier string) {
 		}
 	}
 	var gated *simrt.Task
+	var gateWaiters []*simrt.Task
 	if useGate {
 		gated = r.Go("gated", func() {
 			do(&call{id: len(w.calls), key: "gatekey"}, plan{key: "gatekey"}, gate)
@@ -327,6 +334,20 @@ func lockedCalls(r *simrt.Run, tier string) {
 		// let the gated call get going (it may or may not have registered yet; both are fine)
 		for i := t.Intn(4); i > 0; i-- {
 			r.Yield()
+		}
+		// further callers of the stalled key: they may stay blocked until the release (or run
+		// before the gated call if they win the race), but whatever they do inside LockedCalls
+		// while waiting must not hold up the calls on the other keys
+		for i := t.Intn(3); i > 0; i-- {
+			i := i
+			th := drawDur(t) / 2
+			gateWaiters = append(gateWaiters, r.Go(fmt.Sprintf("gatewaiter%d", i), func() {
+				if th > 0 {
+					r.Sleep(th)
+				}
+				do(&call{id: len(w.calls), key: "gatekey"}, plan{key: "gatekey"}, nil)
+			}))
+			r.Probe("waiter-on-stalled-key")
 		}
 	}
 	var tasks []*simrt.Task
@@ -352,8 +373,33 @@ func lockedCalls(r *simrt.Run, tier string) {
 	if useGate {
 		r.Probe("cross-key-progress-checked")
 		simrt.Close("gate", gate)
-		if !r.JoinTimeout(time.Hour, gated) {
-			r.Fail("stuck", "gated LockedCalls call did not return after release")
+		if !r.JoinTimeout(time.Hour, append([]*simrt.Task{gated}, gateWaiters...)...) {
+			r.Fail("stuck", "LockedCalls calls on the stalled key did not return after its release: %v", r.AliveTasks())
+		}
+	}
+	// "calls on different keys never wait for each other", timed form: computation takes no
+	// virtual time, so in a run without injected stalls a call starts its function either at
+	// the instant it was made or at an instant at which an execution on the SAME key ended;
+	// any other start instant means it was held up by (the end of) a call on another key.
+	if !stallOn {
+		for _, c := range w.calls {
+			e := c.ownExec
+			if e == nil || e.startT.Equal(c.invT) {
+				continue
+			}
+			ok := false
+			for _, o := range w.execs {
+				if o != e && o.key == c.key && o.end != 0 && o.endT.Equal(e.startT) {
+					ok = true
+					break
+				}
+			}
+			r.Probe("waiter-start-instant-checked")
+			if !ok {
+				r.Fail("cross-key-wait", "LockedCalls call %d on key %s was made at +%v and started its function at +%v, an instant at which no execution on key %s ended (no stalls injected): it waited for a call on another key",
+					c.id, c.key, c.invT.Sub(w.t0), e.startT.Sub(w.t0), c.key)
+				break
+			}
 		}
 	}
 	r.Probe("oracle")
@@ -442,6 +488,17 @@ func resourceManager(r *simrt.Run, tier string) {
 	r.Probe("oracle")
 }
 
+// stallOn: the scheduler may inject virtual-time stalls in this run (set by
+// config, which the engine calls right before body); exact virtual-time
+// reasoning is only done in runs without them.
+var stallOn bool
+
+func config(t *simrt.Tape, tier string) simrt.Config {
+	c := simharness.DefaultConfig(t, tier)
+	stallOn = c.StallPerMille > 0
+	return c
+}
+
 func TestSim(t *testing.T) {
-	simharness.Main(t, &simharness.Spec{ID: "C07", Body: body, StuckIsViolation: true, CrashIsViolation: true})
+	simharness.Main(t, &simharness.Spec{ID: "C07", Body: body, Config: config, StuckIsViolation: true, CrashIsViolation: true})
 }
